@@ -91,7 +91,8 @@ def run_case(case):
     sched = case["sched"]
     with gen.Project() as proj:
         ts = case["dag"]["targets"]
-        variant = [{"name": t["name"], "ins_expr": repr(t["ins"]), "outs_expr": repr(t["outs"]), "spec": t["spec"], "route": "target"} for t in ts]
+        sr = random.Random(case["adv_seed"])
+        variant = [{"name": t["name"], "ins_expr": repr(gen.respell_list(sr, t["ins"], proj.root)), "outs_expr": repr(gen.respell_list(sr, t["outs"], proj.root, 0.1)), "spec": t["spec"], "route": "target"} for t in ts]
         proj.write_workflow(gen.render_workflow(variant))
         cfg = {"backend": sched}
         if case["hashing"]:
